@@ -226,22 +226,4 @@ theorem fullMatch_anchored_itemsC (i : Bool) (its : List Pat) (hf : ∀ p ∈ it
     apply (matchP_catList_eol i its 0 s _).mpr
     exact ⟨(matchP_exactC i _ (fragC_catList its hf) 0 s _).mpr ⟨s, h, by simp, by simp⟩, rfl⟩
 
-/-- **the printed `-r` pattern accepts what the expression spells** (plain printing, both anchors) -/
-theorem printed_soundR (cap esc : Bool) (e : Expr) (hwf : e.WFS) (ls : Word) (s : Str) (hl : e.lang ls) (hs : Dfa.Spells ls s) :
-    ∃ P, Spec.parse (fmtRegExp (cfgPlain cap esc) e) = some (⟨false, false⟩, P) ∧ Spec.fullMatch false P s = true := by
-  have hwr := Expr.WFS.toWFR e hwf
-  refine ⟨_, parse_printedR cap esc e hwr, ?_⟩
-  have hfr := Expr.bothR_fragC cap esc e hwr
-  have hsd := Expr.soundR cap esc e hwf ls s hl hs
-  have hitems : ∀ p ∈ topItemsR cap esc e, p.FragC := by
-    unfold topItemsR
-    split
-    · intro p hp; simp only [List.mem_singleton] at hp; subst hp; exact hfr.2
-    · exact hfr.1
-  rw [fullMatch_anchored_itemsC false _ hitems]
-  unfold topItemsR
-  cases ha : e.isAlt with
-  | true => simp only [ite_true, denLC_single, Pat.denC]; exact hsd.2
-  | false => simp only [Bool.false_eq_true, ite_false]; exact hsd.1 ha
-
 end Grexv
